@@ -426,6 +426,9 @@ def get_model_parser(top_rule, comments_model, **kwargs):
 
                 # Used to keep track of user class instances
                 self._user_class_inst = []
+                # All user class instances allocated during this load (used
+                # to drop their collected attributes if the load fails)
+                self._user_class_allocated = []
 
                 self._replace_user_attr_methods()
 
@@ -443,6 +446,7 @@ def get_model_parser(top_rule, comments_model, **kwargs):
             except:  # noqa
                 # Restore of user classes replaced attr methods
                 self._restore_user_attr_methods()
+                self._drop_user_obj_attrs()
                 raise
 
             finally:
@@ -504,6 +508,15 @@ def get_model_parser(top_rule, comments_model, **kwargs):
                     self._replace_user_attr_methods_for_class(user_class)
                 else:
                     user_class._tx_instrumented += 1
+
+        def _drop_user_obj_attrs(self):
+            """
+            Forget the attributes collected for the user class instances of a
+            load that did not finish.
+            """
+            for obj in getattr(self, "_user_class_allocated", []):
+                obj.__class__._tx_obj_attrs.pop(id(obj), None)
+            self._user_class_allocated = []
 
         def _restore_user_attr_methods(self):
             """
@@ -650,6 +663,7 @@ def parse_tree_to_objgraph(
                 # So that nested object get correct reference
                 inst = user_class.__new__(user_class)
                 user_class._tx_obj_attrs[id(inst)] = {}
+                parser._user_class_allocated.append(inst)
                 is_user = True
 
             else:
